@@ -23,7 +23,7 @@ ASSUMPTIONS = [
     "anchor names are unique per glyph except for deliberately duplicated caret coordinates",
 ]
 N = {"quick": (8, 150), "thorough": (16, 1200)}
-FLOORS = {"mixed-direction": 0.2, "one-sided-cursive": 0.15, "categories": 0.3, "carets": 0.3, "caret-at-zero": 0.03, "user-gdef": 0.08, "writer-instances-reused": 0.1}
+FLOORS = {"mixed-direction": 0.2, "one-sided-cursive": 0.15, "categories": 0.155, "carets": 0.254, "caret-at-zero": 0.03, "user-gdef": 0.08, "writer-instances-reused": 0.099}  # a third of the measured frequency: a starving generator is a harness error, sampling noise is not
 
 POOL = [("A", 0x41), ("a", 0x61), ("n", 0x6E), ("o", 0x6F), ("be-cy", 0x431), ("alef-ar", 0x627), ("beh-ar", 0x628), ("lam-ar", 0x644), ("bet-hb", 0x5D1), ("period", 0x2E),
         ("hyphen", 0x2D), ("space", 0x20), ("one", 0x31), ("f_i", None), ("lam_alef-ar", 0xFEFB), ("acutecomb", 0x301), ("unenc", None),
